@@ -17,6 +17,9 @@ func runSequence(t *rapid.T, isValue bool) {
 	// a backpressured subscriber runs alongside: failed calls must emit nothing, successful ones exactly one event
 	r := rlib.NewRunner(cfg, rlib.SubSpec{Backpressure: true})
 	n := rapid.IntRange(1, 30).Draw(t, "steps")
+	if rapid.IntRange(0, 14).Draw(t, "long") == 0 {
+		n = rapid.IntRange(31, 150).Draw(t, "stepsLong") // long lived resources: many generated ids, many reuses of one option
+	}
 	multi := false
 	for i := 0; i < n; i++ {
 		op := rlib.GenOp(t, r, alphabet, true)
@@ -39,6 +42,15 @@ func runSequence(t *rapid.T, isValue bool) {
 		if i := strings.LastIndex(k, "="); i >= 0 {
 			lib.Ev.Class("outcome:" + k[i+1:])
 		}
+	}
+	if r.OptionsReused() > 0 {
+		lib.Ev.Class("an option value was passed to more than one call")
+	}
+	if r.SameObjectWrites > 0 {
+		lib.Ev.Class("a write was handed the object a Get returned")
+	}
+	if n > 30 {
+		lib.Ev.Class("long history (31-150 calls)")
 	}
 	nt := ""
 	if r.FailedWrites > 0 && r.OKWrites > 0 && multi {
